@@ -1,5 +1,6 @@
 import Ecal.Model.Lexer
 import Ecal.Lemmas.LexValue
+import Ecal.Lemmas.LexerList
 /-!
 # C14, lexer clauses — "evaluating a quoted string literal interprets its escape sequences …, and a
 raw string is returned untouched"
@@ -212,6 +213,110 @@ theorem lexToken_dispatches_value (l : L)
 /-- the start state of `lex` on an input that begins with a literal dispatches to `lexValue` -/
 example : lexToken { inp := #[114, 34, 97, 34] } = lexValue (skipWhiteSpace { inp := #[114, 34, 97, 34] }).1 :=
   (lexToken_dispatches_value _ (Or.inr (Or.inr ⟨by decide, Or.inl (by decide)⟩))).1
+
+/-! ## Literals inside any source: the lift to `lex` -/
+
+theorem rem_at (s : L) (pre tail : List Nat) (hinp : s.inp = (pre ++ tail).toArray) (hpos : s.pos = pre.length) :
+    Ecal.C08.QR.rem s = tail := by
+  simp [Ecal.C08.QR.rem, hinp, hpos]
+
+theorem peek1_ascii (s : L) (c : Nat) (tl : List Nat) (hc : c < 128) (hr : Ecal.C08.QR.rem s = c :: tl) :
+    s.peek 1 = some c := by
+  rw [peek1_eq, (Ecal.C08.QR.next_rem s c tl hr).1, Ecal.C08.QR.decodeHead_ascii c tl hc]
+
+theorem peek2_ascii (s : L) (c d : Nat) (tl : List Nat) (hd : d < 128) (hr : Ecal.C08.QR.rem s = c :: d :: tl) :
+    s.peek 2 = some d := by
+  have hlen : (Ecal.C08.QR.rem s).length = s.inp.size - s.pos := by simp [Ecal.C08.QR.rem]
+  rw [hr] at hlen
+  simp only [List.length_cons] at hlen
+  have hr' : Ecal.C08.QR.rem ({ s with pos := s.pos + 1 } : L) = d :: tl := by
+    have : Ecal.C08.QR.rem ({ s with pos := s.pos + 1 } : L) = (Ecal.C08.QR.rem s).drop 1 := by
+      simp [Ecal.C08.QR.rem, List.drop_drop, Nat.add_comm]
+    rw [this, hr]; rfl
+  have hdec := Ecal.C08.QR.decodeRune_rem ({ s with pos := s.pos + 1 } : L)
+  rw [hr', Ecal.C08.QR.decodeHead_ascii d tl hd] at hdec
+  unfold L.peek
+  have n1 : ¬ s.pos ≥ s.inp.size := by omega
+  have n2 : ¬ s.pos + (2 - 1) ≥ s.inp.size := by omega
+  simp only [n1, n2, if_false]
+  show some (decodeRune s.inp (s.pos + 1)).1 = some d
+  have : decodeRune s.inp (s.pos + 1) = (d, 1) := hdec
+  rw [this]
+
+/-- a token of `lex input` that is not EOF was pushed by `lexToken` from a token-boundary state -/
+theorem token_generated (input : List Nat) (t : Tok) (ht : t ∈ (lex input).toList) (hne : t.id ≠ tEOF) :
+    GenOK input.toArray t := by
+  obtain ⟨body, fin, h1, ⟨_, _, b3⟩, h3⟩ := lex_final input
+  rw [h1] at ht
+  rcases List.mem_append.mp ht with ht | ht
+  · exact b3 t ht
+  · rcases h3 with ⟨rfl, _⟩ | ⟨eof, rfl, hid, _⟩
+    · simp at ht
+    · rw [List.mem_singleton.mp ht] at hne; exact absurd hid hne
+
+/-- **raw_literal_in_source** (`raw_string_untouched` lifted to `lex`). Wherever a raw literal
+    `r q body q` (`q` not in `body`) stands in a source text — `input = pre ++ r q body q ++ rest`, any
+    `pre`, any `rest` — a token of `lex input` that starts at the literal's first byte (and is
+    neither a comment token, whose `Pos` is the byte after its opener, nor an error token) IS that
+    literal's string token: value `body` byte for byte, `allowEscapes = false`. Whether a token starts
+    there is decided by the text before (`ar"x"` is one word — see the counter-example below);
+    `token_starts_at_first_character` says tokens start only at token boundaries. -/
+theorem raw_literal_in_source (pre body rest : List Nat) (q : Nat) (hq : q = 34 ∨ q = 39) (hb : q ∉ body)
+    (t : Tok) (ht : t ∈ (lex (pre ++ (114 :: q :: (body ++ q :: rest)))).toList) (hpos : t.pos = pre.length)
+    (h1 : t.id ≠ tEOF) (h2 : t.id ≠ tPOSTCOMMENT) (h3 : t.id ≠ tPRECOMMENT) (h4 : t.id ≠ tERROR) :
+    t.id = tSTRING ∧ t.val = body ∧ t.allowEscapes = false := by
+  obtain ⟨s, _, _, hinp, htoks, hkind⟩ := token_generated _ t ht h1
+  have hsp : s.pos = pre.length := by
+    rcases hkind with h | h | h | h
+    · exact absurd h h2
+    · exact absurd h h3
+    · exact absurd h h4
+    · rw [← h]; exact hpos
+  have hq128 : q < 128 := by rcases hq with rfl | rfl <;> omega
+  have hrem := rem_at s pre _ hinp hsp
+  have hp1 := peek1_ascii s 114 _ (by omega) hrem
+  have hp2 := peek2_ascii s 114 q _ hq128 hrem
+  obtain ⟨hd, e1, e2, e3⟩ := lexToken_dispatches_value s
+    (Or.inr (Or.inr ⟨hp1, by rcases hq with rfl | rfl; exact Or.inl hp2; exact Or.inr hp2⟩))
+  obtain ⟨t', _, a2, a3, a4, a5, _⟩ := raw_string_untouched (skipWhiteSpace s).1 pre body rest q hq hb
+    (by rw [e2, hinp]) (by rw [e1, hsp])
+  have : t = t' := by
+    have h := htoks.symm.trans ((congrArg (fun x => x.1.toks) hd).trans (a2.trans (by rw [e3])))
+    have := congrArg Array.back? h
+    simpa using this
+  rw [this]; exact ⟨a3, a4, a5⟩
+
+/-- **quoted_literal_in_source** (`quoted_string_unescapes` lifted to `lex`): the same for a quoted
+    literal `q body q` whose prepared body strconv.Unquote accepts. -/
+theorem quoted_literal_in_source (pre body rest s' : List Nat) (q : Nat) (hq : q = 34 ∨ q = 39)
+    (hb : Body true q false body)
+    (hu : unquoteBody ((prep q body).length + 2) (prep q body) = some s')
+    (t : Tok) (ht : t ∈ (lex (pre ++ (q :: (body ++ q :: rest)))).toList) (hpos : t.pos = pre.length)
+    (h1 : t.id ≠ tEOF) (h2 : t.id ≠ tPOSTCOMMENT) (h3 : t.id ≠ tPRECOMMENT) (h4 : t.id ≠ tERROR) :
+    t.id = tSTRING ∧ t.val = s' ∧ t.allowEscapes = true := by
+  obtain ⟨s, _, _, hinp, htoks, hkind⟩ := token_generated _ t ht h1
+  have hsp : s.pos = pre.length := by
+    rcases hkind with h | h | h | h
+    · exact absurd h h2
+    · exact absurd h h3
+    · exact absurd h h4
+    · rw [← h]; exact hpos
+  have hq128 : q < 128 := by rcases hq with rfl | rfl <;> omega
+  have hrem := rem_at s pre _ hinp hsp
+  have hp1 := peek1_ascii s q _ hq128 hrem
+  obtain ⟨hd, e1, e2, e3⟩ := lexToken_dispatches_value s
+    (by rcases hq with rfl | rfl; exact Or.inl hp1; exact Or.inr (Or.inl hp1))
+  obtain ⟨t', _, a2, a3, a4, a5, _⟩ := quoted_string_unescapes (skipWhiteSpace s).1 pre body rest s' q hq hb hu
+    (by rw [e2, hinp]) (by rw [e1, hsp])
+  have : t = t' := by
+    have h := htoks.symm.trans ((congrArg (fun x => x.1.toks) hd).trans (a2.trans (by rw [e3])))
+    have := congrArg Array.back? h
+    simpa using this
+  rw [this]; exact ⟨a3, a4, a5⟩
+
+/-- non-vacuity: in `x := r"a\"` + `;y` the token at offset 5 is the raw literal with value `a\` -/
+example : ((lex ([120, 32, 58, 61, 32] ++ (114 :: 34 :: ([97, 92] ++ 34 :: [59, 121])))).toList.filter
+    (·.pos = 5)).map (fun t => (t.id, t.val, t.allowEscapes)) = [(tSTRING, [97, 92], false)] := by decide +kernel
 
 /-! ## Non-vacuity: concrete literals through the whole lexer `lex` -/
 
